@@ -1,5 +1,6 @@
 import GV.Lib.Line
 import GV.Model.MsgCodec
+import GV.Model.MsgWrappers
 import GV.Gen.MsgShapes
 /-
   C04 driver (feed_impl: `op \t implementation-output`).
@@ -34,7 +35,15 @@ def run (m : Mode) (proto : String) (b : Bytes) : R :=
     | some ty =>
       match lookupShape proto ty with
       | none => .err
-      | some (_, .opaque) => .opaque
+      | some (name, .opaque) =>
+        -- messages with their own UnmarshalCBOR: modelled by hand where GV.Model.MsgWrappers has them
+        (match GV.Model.MsgWrappers.special name with
+         | some f =>
+           (match f m t with
+            | .val v => if dupKeys v then .err else .ok s!"ok {name}_{render v}"
+            | .rej => .err
+            | .unknown => .opaque)
+         | none => .opaque)
       | some (name, sh) =>
         match decMsg m sh t with
         | some v => .ok s!"ok {name}_{render v}"
